@@ -52,8 +52,12 @@ text.append("non-recursive dict export/import, attribute insertion order of `Nod
 text.append("escaping by `str.replace`, ...) and twelve more aggressive ones (`seeded/equivalent2/f01..f12`: memoised `path`/`height` with correct")
 text.append("invalidation, children stored in an id-keyed dict, both mixins sharing one implementation module, renamed private attributes,")
 text.append("merged detach/attach, all five iterators without recursion, DOT and Mermaid sharing one eager line builder, ...) were applied one at a")
-text.append("time and all twenty quick checks run against each: 540 runs, no alarm")
-text.append("(`tools/eq_eval.py`, `seeded/equivalent_results.json`, `seeded/equivalent2_results.json`).  Over-strict oracles had been found and loosened before by such an")
+text.append("time and all twenty quick checks run against each; a third set of twelve (`seeded/equivalent3/g01..g12`, written against the final machinery:")
+text.append("py3-only clean-up of the whole package, `ANYTREE_ASSERTIONS` parsed by a helper module, assertion blocks turned into helpers, exception")
+text.append("message factories, restructured symlink forwarding, constructors and `_repr`, exporter / importer option plumbing, a shared DOT/Mermaid")
+text.append("utility module with an id-table class, search / walker / util plumbing, restructured iterator start-up, Resolver internals, RenderTree")
+text.append("formatting) likewise: 39 refactorings x 20 checks = 780 runs, no alarm")
+text.append("(`tools/eq_eval.py`, `seeded/equivalent_results.json`, `seeded/equivalent2_results.json`, `seeded/equivalent3_results.json`).  Over-strict oracles had been found and loosened before by such an")
 text.append("experiment (key order of plain dicts in C10/C11; iterator-protocol details in C05; exact word order of the CountError message in C14).")
 text.append("")
 text.append("| change | what it is / what it needs to manifest (from the author's notes) | caught by own check | witness classes | also caught by |")
